@@ -2,6 +2,7 @@
   C03 — Fewer than the threshold of key holders can neither sign nor recover the key.
 -/
 import Frost.Proofs.Honest
+import Frost.Proofs.TopCoeff
 
 set_option linter.unusedSectionVars false
 
@@ -162,5 +163,21 @@ theorem reconstruct_eq (S : Suite F E) (kps : List (KeyPackage F E)) (hne : kps 
     `below_threshold_iff` one holder signs validly only if `c = 0`. -/
 example : lagBasis ([1] : List ℚ) 0 1 * hornerR [5, 7] 1 - hornerR [5, 7] 0 ≠ 0 := by
   simp [lagBasis, hornerR]
+
+/-- **One holder short of the threshold**: `t-1` distinct non-zero holders of shares `f(i)` of a
+    polynomial with `t` coefficients interpolate to the secret `f(0)` iff its top coefficient is
+    zero — the only coincidence in `below_threshold_iff` / `reconstruct_eq` for `k = t-1`, an
+    event of probability `1/q` over the dealer's (or the participants') randomness.
+    (`xs` is any listing of the holders' identifiers, in particular the sorted set that
+    `reconstruct` and the signing session use.) -/
+theorem one_fewer_iff_top_coefficient (xs : List F) (hnd : xs.Nodup) (h0 : ∀ x ∈ xs, x ≠ 0)
+    (hk : 0 < xs.length) (cs : List F) (a : F) (hlen : cs.length = xs.length) :
+    (xs.map fun i => lagBasis xs 0 i * hornerR (cs ++ [a]) i).sum = hornerR (cs ++ [a]) 0 ↔ a = 0 :=
+  interp_one_fewer_iff xs hnd h0 hk cs a hlen
+
+/-- non-vacuity: two holders {1, 2} of a 3-coefficient polynomial over ℚ -/
+example : ((([1, 2] : List ℚ).map fun i => lagBasis [1, 2] 0 i * hornerR ([5, 3] ++ [7]) i).sum
+    = hornerR ([5, 3] ++ [7]) 0) ↔ (7 : ℚ) = 0 :=
+  one_fewer_iff_top_coefficient [1, 2] (by decide) (by decide) (by decide) [5, 3] 7 rfl
 
 end Frost.C03
